@@ -361,6 +361,56 @@ def async_waiter_scenario(sc):
                 d["spec"] = spec
             return d
 
+        if sc.get("late"):
+            # asyncio twin of `late`: the device answers AFTER timeout_ops; NO_TERMINATE_ON_TIMEOUT on or off.  At the moment the
+            # caller gets its exception: is the lock held, are tasks created by the operation still pending; then a next operation.
+            from scrapli.settings import Settings
+            Settings.NO_TERMINATE_ON_TIMEOUT = bool(sc.get("no_terminate", True))
+            table["hung"] = tmo
+            hk = sc["hung"][0]
+            hspec = {"si": ["si", MARK], "sir": ["sir", MARK], "int": ["int", ["show c0e0", MARK]]}[hk]
+            t.delay = sc["a_delay"]
+            base = set(asyncio.all_tasks())
+            snap = {}
+
+            async def hung_run():
+                r = await run("hung", hspec)
+                me = asyncio.current_task()
+                snap.update({"lock_locked": lock.locked(), "ncalls": len(t.owners),
+                             "pool_threads_alive": sorted(x.get_name() for x in asyncio.all_tasks() if x not in base and x is not me and not x.done())})
+                return r
+
+            t_h = time.time()
+            hung = asyncio.ensure_future(hung_run())
+            hung.set_name("hung")
+            await asyncio.wait([hung], timeout=tmo + sc["a_delay"] + slack)
+            out["lock_held_while_hung"] = True
+            out["late_answer_armed"] = bool(t.delayed)
+            out["hung"] = rep("hung", hung, t_h)
+            out["at_exception"] = dict(snap) or None
+            nxt_spec = ["si", "show c1o0"]
+            if not t.isalive():          # default settings: the timeout closed the connection; the user re-opens it
+                t.silent = False
+                await t.open()
+                t.buf.clear()
+                out["reopened"] = True
+            t_n = time.time()
+            nxt = asyncio.ensure_future(run("queued0", nxt_spec))
+            nxt.set_name("queued0")
+            await asyncio.wait([nxt], timeout=sc["a_delay"] + slack)
+            out["queued"] = [rep("queued0", nxt, t_n, nxt_spec)]
+            await asyncio.sleep(0.05)
+            n0 = snap.get("ncalls", 0)
+            out["ended_op_worker"] = "hung"
+            # transport calls made, after the caller got its exception, by tasks that worked for the ended operation before
+            prior = set(t.owners[:n0])
+            late_owners = [o for o in t.owners[n0:] if o in prior]
+            out["ended_op_calls_after_exception"] = len(late_owners)
+            out["lock_locked_after"] = lock.locked()
+            out["transport_alive_after"] = t.isalive()
+            out["closers"] = list(t.closers)
+            out["phase2"] = None
+            return out
         holder_spec = ["si", MARK]
         t.delay = sc["a_delay"]
         holder = asyncio.ensure_future(run("holder", holder_spec))
@@ -440,7 +490,7 @@ def phase2(conn, t, lock, slack):
 
 if __name__ == "__main__":
     _sc = json.loads(sys.argv[1])
-    res = async_waiter_scenario(_sc) if _sc.get("async_waiter") else main(_sc)
+    res = async_waiter_scenario(_sc) if (_sc.get("async_waiter") or _sc.get("async_late")) else main(_sc)
     sys.stdout.write(json.dumps(res) + "\n")
     sys.stdout.flush()
     os._exit(0)
